@@ -771,6 +771,27 @@ class Interp:
         a = e.attr
         if isinstance(base, Opaque):
             return Opaque(base.name + '.' + a)
+        if isinstance(base, tuple) and len(base) == 3 and base[0] == 'class':
+            m = self.find_method(base, a)
+            if m is not None:
+                decos = [ast.unparse(d) for d in m[1].decorator_list]
+                if 'classmethod' in decos:
+                    return FuncRef(m[0], m[1], cls=m[2], bound=base)
+                return FuncRef(m[0], m[1], cls=m[2], bound=None)           # a plain function looked up on the class (staticmethod, or called with an explicit self)
+            v_ = self.class_attr(base, a)
+            if v_ is not NotImplemented:
+                return v_
+            if a == '__name__': return base[2].name
+            raise RaiseSignal(ast.copy_location(ast.Raise(exc=ast.Name(id='AttributeError', ctx=ast.Load()), cause=None), e), f'AttributeError: type object {base[2].name!r} has no attribute {a!r}')
+        if isinstance(base, Obj) and getattr(base, 'native', False) and a not in base.attrs:
+            m = self.find_method(base.cls, a)
+            if m is None:
+                v_ = self.class_attr(base.cls, a)
+                if v_ is not NotImplemented:
+                    return v_
+                if a == '__class__': return base.cls
+                if a == '__dict__': return base.attrs
+                raise RaiseSignal(ast.copy_location(ast.Raise(exc=ast.Name(id='AttributeError', ctx=ast.Load()), cause=None), e), f'AttributeError: {base.cls[2].name!r} object has no attribute {a!r}')
         if isinstance(base, Obj):
             if a in base.attrs or base.default is not None and base.cls is None:
                 return base.get(a)
@@ -782,6 +803,8 @@ class Interp:
                         return self.call(m[0], m[1], [], {}, self_obj=base, owner=m[2])
                     if 'staticmethod' in decos:
                         return FuncRef(m[0], m[1], cls=m[2], bound=None)
+                    if 'classmethod' in decos:
+                        return FuncRef(m[0], m[1], cls=m[2], bound=base.cls)
                     return FuncRef(m[0], m[1], cls=m[2], bound=base)
             return base.get(a)
         if isinstance(base, ModuleRef):
@@ -858,6 +881,63 @@ class Interp:
             m = self.find_method(b, name)
             if m: return m
         return None
+
+    def construct(self, cls, args, kwargs, e, fr):
+        """Python's own object construction for a class of the repository: a fresh instance, then __init__ (dataclass / NamedTuple fields are bound when there is none)"""
+        _, cmod, cnode = cls
+        obj = Obj(cls=cls, name=cnode.name.lower())
+        obj.native = True
+        m = self.find_method(cls, '__init__')
+        if m is not None:
+            self.call(m[0], m[1], list(args), dict(kwargs), self_obj=obj, owner=m[2])
+            return obj
+        fields = [(st.target.id, st.value) for st in cnode.body if isinstance(st, ast.AnnAssign) and isinstance(st.target, ast.Name)]
+        if fields or args or kwargs:
+            decos = [ast.unparse(d_.func if isinstance(d_, ast.Call) else d_).split('.')[-1] for d_ in cnode.decorator_list]
+            bases = [ast.unparse(b_).split('.')[-1] for b_ in cnode.bases]
+            if 'dataclass' not in decos and 'NamedTuple' not in bases:
+                if args or kwargs:
+                    raise RaiseSignal(ast.copy_location(ast.Raise(exc=ast.Name(id='TypeError', ctx=ast.Load()), cause=None), e), f'TypeError: {cnode.name}() takes no arguments')
+                return obj
+            kwargs = dict(kwargs); args = list(args)
+            if len(args) > len(fields):
+                raise RaiseSignal(ast.copy_location(ast.Raise(exc=ast.Name(id='TypeError', ctx=ast.Load()), cause=None), e), f'TypeError: {cnode.name}() takes {len(fields)} positional arguments but {len(args)} were given')
+            for i_, (fn_, dflt) in enumerate(fields):
+                if i_ < len(args): obj.attrs[fn_] = args[i_]
+                elif fn_ in kwargs: obj.attrs[fn_] = kwargs.pop(fn_)
+                elif dflt is not None: obj.attrs[fn_] = self.eval(dflt, Frame(cmod, '<class>'))
+                else:
+                    raise RaiseSignal(ast.copy_location(ast.Raise(exc=ast.Name(id='TypeError', ctx=ast.Load()), cause=None), e), f'TypeError: {cnode.name}() missing required argument {fn_!r}')
+            if kwargs:
+                raise RaiseSignal(ast.copy_location(ast.Raise(exc=ast.Name(id='TypeError', ctx=ast.Load()), cause=None), e), f'TypeError: {cnode.name}() got an unexpected keyword argument {next(iter(kwargs))!r}')
+            if 'NamedTuple' in bases:
+                obj.attrs['__iter__'] = tuple(obj.attrs[fn_] for fn_, _ in fields)
+        return obj
+
+    def class_attr(self, cls, name):
+        """value of a class-level assignment `name = ...` (searched along the bases); NotImplemented when there is none"""
+        todo = [cls]; seen = set()
+        while todo:
+            c = todo.pop(0)
+            if id(c[2]) in seen: continue
+            seen.add(id(c[2]))
+            for st in c[2].body:
+                if isinstance(st, ast.Assign) and any(isinstance(t_, ast.Name) and t_.id == name for t_ in st.targets):
+                    return self.eval(st.value, Frame(c[1], '<class>'))
+                if isinstance(st, ast.AnnAssign) and isinstance(st.target, ast.Name) and st.target.id == name and st.value is not None:
+                    return self.eval(st.value, Frame(c[1], '<class>'))
+            todo += self.bases_of(c)
+        return NotImplemented
+
+    def is_subclass(self, cls, other):
+        todo = [cls]; seen = set()
+        while todo:
+            c = todo.pop(0)
+            if c[2] is other[2]: return True
+            if id(c[2]) in seen: continue
+            seen.add(id(c[2]))
+            todo += self.bases_of(c)
+        return False
 
     def bases_of(self, cls):
         _, mod, node = cls
@@ -1376,6 +1456,7 @@ class Interp:
             hc = self.hooks.get('construct')
             if hc is not None:
                 return hc(self, f, args, kwargs, e, fr)
+            return self.construct(f, args, kwargs, e, fr)
         raise AnalysisError(f'{fr.mod.where(e)}: call of unsupported callee `{ast.unparse(e.func)[:60]}` ({type(f).__name__})')
 
     def builtin(self, name, args, kwargs, e, fr):
@@ -1532,6 +1613,10 @@ class Interp:
                 names = [getattr(t_, 'name', '') for t_ in (args[1] if isinstance(args[1], (tuple, list)) else [args[1]])]
                 if any(str(n_).split('.')[-1] == 'ndarray' for n_ in names):
                     return True
+            if len(args) == 2 and isinstance(args[0], Obj) and getattr(args[0], 'native', False) and args[0].cls is not None:
+                cands = args[1] if isinstance(args[1], (tuple, list)) and not (len(args[1]) == 3 and args[1][0] == 'class') else [args[1]]
+                if all(isinstance(c_, tuple) and len(c_) == 3 and c_[0] == 'class' for c_ in cands):
+                    return any(self.is_subclass(args[0].cls, c_) for c_ in cands)
             return Opaque('isinstance')
         if nm == 'type':
             a = args[0]
